@@ -7,7 +7,7 @@ connectives, swapped branches, dropped list operations), builds each in a scratc
   killed    – at least one property file stops building (some theorem contradicts the mutant);
   survived  – everything still builds: either the mutation is behaviour-preserving / concerns behaviour no
               property speaks about, or a theorem is weaker than it looks.  Survivors are listed for review.
-Usage: model_mutation_sweep.py [--n 60] [--seed 0] [--jobs 4] [--files Canon,Serialize,...]
+Usage: model_mutation_sweep.py [--n 60] [--seed 0] [--jobs 4] [--files Canon,Serialize,...] | --survivors
 Writes model_mutation_sweep.json."""
 import argparse, json, os, random, re, shutil, subprocess, sys, time
 from concurrent.futures import ThreadPoolExecutor
@@ -93,11 +93,20 @@ def main():
     ap.add_argument("--seed", type=int, default=0)
     ap.add_argument("--jobs", type=int, default=4)
     ap.add_argument("--files", default=",".join(FILES))
+    ap.add_argument("--survivors", action="store_true", help="re-run the mutants recorded as survived (after theorems were added)")
     a = ap.parse_args()
-    cands = candidates(a.files.split(","))
-    rng = random.Random(a.seed)
-    rng.shuffle(cands)
-    chosen = cands[: a.n]
+    out = os.path.join(ROOT, "model_mutation_sweep.json")
+    if a.survivors:
+        prev = json.load(open(out)) if os.path.exists(out) else []
+        cur = {(c["file"], c["line"], c["new"]): c for c in candidates(FILES)}
+        chosen = [cur[(r["file"], r["line"], r["new"])] for r in prev
+                  if r["verdict"] == "survived" and (r["file"], r["line"], r["new"]) in cur]
+        cands = chosen
+    else:
+        cands = candidates(a.files.split(","))
+        rng = random.Random(a.seed)
+        rng.shuffle(cands)
+        chosen = cands[: a.n]
     print(f"{len(cands)} candidate mutants, running {len(chosen)}", flush=True)
     results = []
     with ThreadPoolExecutor(a.jobs) as ex:
@@ -105,7 +114,6 @@ def main():
             results.append(r)
             tag = r["verdict"] + (" " + ",".join(r.get("failed", [])) if r["verdict"] == "killed" else "")
             print(f"{r['file']}:{r['line']:<4d} {tag:40s} | {r['old'].strip()[:70]}  ==>  {r['new'].strip()[:70]}", flush=True)
-    out = os.path.join(ROOT, "model_mutation_sweep.json")
     prev = json.load(open(out)) if os.path.exists(out) else []
     key = lambda r: (r["file"], r["line"], r["new"])
     seen = {key(r) for r in results}
